@@ -51,3 +51,21 @@ M("C18", "clip-stats-from-previous-subset", [(SU, "        nold = w.size\n\n    
                                                "        nold = w.size\n\n        if i < 3:\n            m, e, s = _get_sigma_clip_stats(tarr, weights=tweights)")],
   "from the third discarding iteration on the statistics are not recomputed")
 M("C18", "control-wmedian-rewrite", [(SU, "    wtot2 = wtot / 2.0\n", "    wtot2 = 0.5 * wtot\n")], control=True)
+
+# ---- C17
+CG = "esutil/integrate/cgauleg_pywrap.c"
+IU = "esutil/integrate/util.py"
+M("C17", "eps-1e-6", [(CG, "EPS = 4.e-11;", "EPS = 4.e-6;")], "Newton iteration stops early")
+M("C17", "mirror-weight-from-neighbour", [(CG, "w[npts+1-i-1] = w[i-1];", "w[npts+1-i-1] = w[i>1 ? i-2 : i-1];")])
+M("C17", "setup-keeps-larger-rule", [(IU, "            if self.npts != npts:\n                self.npts = npts\n", "            if self.npts is None or npts > self.npts:\n                self.npts = npts\n")],
+  "a later call with fewer points silently keeps the larger rule")
+M("C17", "setup-stale-nodes", [(IU, "                self.npts = npts\n                self.xxi, self.wii = gauleg(-1.0, 1.0, self.npts)",
+                                "                stale = self.npts is not None and npts == self.npts + 1\n                self.npts = npts\n                if not stale:\n                    self.xxi, self.wii = gauleg(-1.0, 1.0, self.npts)")],
+  "npts -> npts+1 on the same object keeps the old nodes")
+M("C17", "qgauss2-grid-transposed", [(IU, "self.xgrid, self.ygrid = meshgrid(x, y)", "self.ygrid, self.xgrid = meshgrid(y, x)")])
+M("C17", "data-halfwidth-from-ends", [(IU, "        x1 = xvals.min()\n        x2 = xvals.max()\n\n        f1 = (x2 - x1) / 2.0\n        f2 = (x2 + x1) / 2.0\n\n        xi = self.xxi * f1 + f2\n\n        # interpolate",
+                                       "        x1 = xvals.min()\n        x2 = xvals.max()\n\n        f1 = (x2 - x1) / 2.0\n        f2 = (x2 + x1) / 2.0\n\n        xi = self.xxi * f1 + f2\n        if self.npts > 64:\n            xi = numpy.sort(numpy.r_[xi[:-1], x2])\n\n        # interpolate")],
+  "for more than 64 points the last abscissa is moved to the upper end of the data")
+M("C17", "mirror-index-off-by-one", [(CG, "x[npts+1-i-1] = xm + xl*z;", "x[npts+1-i-(i>2?1:0)] = xm + xl*z;")],
+  "the first two mirrored abscissae are stored one slot too far (heap write past the array for i=1)")
+M("C17", "control-do-while-spelled", [(CG, "m = (npts + 1)/2;", "m = (npts + 1) >> 1;")], control=True)
